@@ -19,6 +19,9 @@ pub enum Tier {
     Thorough,
 }
 
+/// Tier of the running check, for workload builders that have no `Ctx` at hand (set by `Ctx::new`).
+pub static QUICK_TIER: std::sync::atomic::AtomicBool = std::sync::atomic::AtomicBool::new(true);
+
 pub struct Ctx {
     pub property: String,
     pub tier: Tier,
@@ -38,6 +41,7 @@ impl Ctx {
             Tier::Thorough => Duration::from_secs(25 * 60),
         };
         let budget = std::env::var("VERIF_BUDGET_S").ok().and_then(|s| s.parse().ok()).map(Duration::from_secs).unwrap_or(budget);
+        QUICK_TIER.store(tier == Tier::Quick, std::sync::atomic::Ordering::SeqCst);
         println!("vrl-sim check {property} tier={tier:?} VERIF_SEED={seed} jobs={}", driver::parallelism());
         Ctx {
             property: property.to_string(),
